@@ -58,14 +58,26 @@ Definition auxdesc (AX : list string) (w0 w : wstate) (c : con) (n : string) : P
   exists extra, cdesc (w_vars w) c n (dims_of w0 (c_axes c) ++ extra) /\ ~ In n (DN w) /\
                 (forall x, In x extra -> ~ In x AX) /\ (c_strlen c = None -> extra = []).
 
-Lemma write_aux_step : forall f AX w c, con_wf f c -> Inv0 w -> RoleInv w -> Ref f w [] ->
+Lemma eff_strlen_none : forall o, eff_strlen o None = None.
+Proof. intros o. unfold eff_strlen. destruct (vlen o); reflexivity. Qed.
+
+Lemma scalar_axis_wf : forall f c, con_wf f c -> c_type c = CAux -> scalar_axis f c = None.
+Proof.
+  intros f c [_ [_ [_ H]]] Et. rewrite Et in H. destruct H as [Hne Hin]. unfold scalar_axis.
+  destruct (c_axes c) as [|a [|b l]]; try reflexivity.
+  assert (Ha : inb a (f_data_axes f) = true) by (apply inb_In; apply Hin; left; reflexivity).
+  rewrite Ha. reflexivity.
+Qed.
+
+Lemma write_aux_step : forall o f AX w c, con_wf f c -> c_type c = CAux -> Inv0 w -> RoleInv w -> Ref f w [] ->
   incl AX (used w) -> SdInv AX w ->
-  let w' := write_aux w c in
+  let w' := write_aux o f w c in
   Inv0 w' /\ RoleInv w' /\ Ref f w' [] /\ ext w w' /\ w_axdim w' = w_axdim w /\ w_axscalar w' = w_axscalar w /\
   SdInv AX w' /\
   exists n, w_coords w' = w_coords w ++ [n] /\ auxdesc AX w w' c n.
 Proof.
-  intros f AX w c [Hstd [Hnv [Hbn _]]] HI HR HRef HAX HSd w'. subst w'. unfold write_aux.
+  intros o f AX w c Hcw Et HI HR HRef HAX HSd w'. subst w'. unfold write_aux.
+  rewrite (scalar_axis_wf f c Hcw Et). destruct Hcw as [Hstd [Hnv [Hbn _]]].
   destruct (alloc (base_name (c_ncvar c) (c_std c) "auxiliary") w) as [ncvar w1] eqn:Ea.
   assert (Hb : nice (base_name (c_ncvar c) (c_std c) "auxiliary")).
   { apply base_name_nice; try assumption. split; [discriminate|reflexivity]. }
@@ -78,11 +90,11 @@ Proof.
   assert (Hnv1 : ~ In ncvar (VN w1)).
   { rewrite EV. intro Hx. apply Hf. apply used_vn; assumption. }
   destruct (write_bounds_spec _ _ _ _ _ _ Ewb I1 R1 Hbn Hn) as [I2 [R2 [X2 [F1 [F2 [F3 [F4 _]]]]]]].
-  destruct (with_strlen (c_strlen c) (dims_of w (c_axes c)) w2) as [vdims w3] eqn:Esl.
+  destruct (with_strlen (eff_strlen o (c_strlen c)) (dims_of w (c_axes c)) w2) as [vdims w3] eqn:Esl.
   destruct (with_strlen_spec _ _ _ _ _ Esl I2 R2) as [I3 [R3 [X3 [G1 [G2 [G3 [G4 [G5 G6]]]]]]]].
-  destruct (main_var_spec c w w1 ncvar (dims_of w (c_axes c)) extra w2 w3 vdims I1 R1 X1 Hf Hin Hnv1 Hn Hbn Ewb I3 X3 G1)
+  destruct (main_var_spec c w w1 ncvar (dims_of w (c_axes c)) extra w2 w3 vdims (skind o (c_strlen c)) I1 R1 X1 Hf Hin Hnv1 Hn Hbn Ewb I3 X3 G1)
     as [I4 [X4 [D4 [Hmv Hnew]]]].
-  set (mv := {| v_name := ncvar; v_dims := vdims; v_attrs := extra |}) in *.
+  set (mv := {| v_name := ncvar; v_dims := vdims; v_attrs := extra; v_kind := skind o (c_strlen c) |}) in *.
   set (w4 := add_var mv w3) in *.
   set (w5 := add_coord ncvar w4).
   assert (S5 : same_core w4 w5) by (unfold same_core; simpl; auto).
@@ -110,12 +122,12 @@ Proof.
     - intros a0 n H0. rewrite Eax5. exact H0. }
   splits; try assumption.
   exists ncvar. split; [exact Eco5|].
-  destruct (c_strlen c) as [sl|] eqn:Esl'.
+  destruct (eff_strlen o (c_strlen c)) as [sl|] eqn:Esl'.
   - destruct G6 as [sdim [Ev Hs]]. exists [sdim]. splits.
     + rewrite <- Ev. exact D4.
     + exact Hndn.
     + intros x [Hx|[]]. subst x. apply in_map_iff in Hs as [p [Ep Hp]]. subst. apply Sd5. exact Hp.
-    + intros E; congruence.
+    + intros E. rewrite E, eff_strlen_none in Esl'. discriminate.
   - exists []. subst vdims. splits.
     + rewrite app_nil_r. exact D4.
     + exact Hndn.
@@ -131,21 +143,21 @@ Proof.
     apply used_vn; [exact HI|]. eapply cdesc_in_vn; exact H1.
 Qed.
 
-Lemma write_aux_fold : forall f AX cs w, (forall c, In c cs -> con_wf f c) -> Inv0 w -> RoleInv w -> Ref f w [] ->
+Lemma write_aux_fold : forall o f AX cs w, (forall c, In c cs -> con_wf f c /\ c_type c = CAux) -> Inv0 w -> RoleInv w -> Ref f w [] ->
   incl AX (used w) -> SdInv AX w ->
-  let w' := fold_left write_aux cs w in
+  let w' := fold_left (write_aux o f) cs w in
   Inv0 w' /\ RoleInv w' /\ Ref f w' [] /\ ext w w' /\ w_axdim w' = w_axdim w /\ w_axscalar w' = w_axscalar w /\
   exists ns, w_coords w' = w_coords w ++ ns /\ Forall2 (auxdesc AX w w') cs ns.
 Proof.
-  intros f AX cs. induction cs as [|c cs IH]; intros w Hcs HI HR HRef HAX HSd; simpl.
+  intros o f AX cs. induction cs as [|c cs IH]; intros w Hcs HI HR HRef HAX HSd; simpl.
   - splits; try assumption; try reflexivity; [apply ext_refl|]. exists []. rewrite app_nil_r. split; [reflexivity|constructor].
-  - destruct (write_aux_step f AX w c (Hcs c (or_introl eq_refl)) HI HR HRef HAX HSd)
+  - destruct (write_aux_step o f AX w c (proj1 (Hcs c (or_introl eq_refl))) (proj2 (Hcs c (or_introl eq_refl))) HI HR HRef HAX HSd)
       as [I1 [R1 [Ref1 [X1 [E1 [E2 [Sd1 [n [C1 D1]]]]]]]]].
-    set (w1 := write_aux w c) in *.
+    set (w1 := write_aux o f w c) in *.
     assert (HAX1 : incl AX (used w1)) by (intros x Hx; apply (ext_used _ _ X1); apply HAX; exact Hx).
     destruct (IH w1 (fun c' H => Hcs c' (or_intror H)) I1 R1 Ref1 HAX1 Sd1)
       as [I2 [R2 [Ref2 [X2 [E3 [E4 [ns [C2 D2]]]]]]]].
-    set (w2 := fold_left write_aux cs w1) in *.
+    set (w2 := fold_left (write_aux o f) cs w1) in *.
     splits; try assumption; try congruence.
     + eapply ext_trans; eassumption.
     + exists (n :: ns). split; [rewrite C2, C1, <- app_assoc; reflexivity|].
@@ -179,7 +191,7 @@ Proof.
   assert (Hb : nice (base_name (c_ncvar c) (c_std c) d)) by (apply base_name_nice; assumption).
   destruct (alloc_inv _ _ _ _ Ea HI Hb) as [I1 [Hf [Hn [Hin [EV ED]]]]].
   destruct (alloc_spec _ _ _ _ Ea) as [_ [A1 [A2 [A3 [A4 [A5 [A6 [A7 A8]]]]]]]].
-  set (mv := {| v_name := ncvar; v_dims := dims_of w (c_axes c); v_attrs := [] |}).
+  set (mv := {| v_name := ncvar; v_dims := dims_of w (c_axes c); v_attrs := []; v_kind := KNum |}).
   exists ncvar, (add_var mv w1). split; [reflexivity|].
   assert (Hnv1 : ~ In ncvar (VN w1)) by (rewrite EV; intro Hx; apply Hf; apply used_vn; assumption).
   assert (I2 : Inv0 (add_var mv w1)) by (apply add_var_inv; [exact I1|exact Hin|exact Hnv1|left; reflexivity]).
